@@ -38,8 +38,21 @@ def _e2e(ck):
     # attempts, against a real run of the same study under the scripted scheduler: no submit /
     # check_jobs / step execution, termination within instances+1 polls, every row DRYRUN, exit 0,
     # same script files as the real run (harness/props/c17_e2e.py)
-    from harness.props import c17_e2e
-    c17_e2e.run_e2e(ck)
+    # (d) same directory tree below the output path as the real run, {--usetmp} x {--hashws}
+    import traceback
+    try:
+        from harness.props import c17_e2e
+        c17_e2e.run_e2e(ck)
+    except Exception:
+        ck.mismatch("the end-to-end part of the check (c17_e2e) could not run to completion", None, traceback.format_exc()[-3000:])
+    # the REAL slurm / lsf / flux / local adapters over rich batch blocks, dry and real, command line and API:
+    # a dry run spawns no process at any door, runs no scheduler command (fake executables first on PATH) and
+    # makes no Flux call beyond the constructor's version read (harness/props/c17_procs.py)
+    try:
+        from harness.props import c17_procs
+        c17_procs.run_procs(ck)
+    except Exception:
+        ck.mismatch("the process-layer part of the check (c17_procs) could not run to completion", None, traceback.format_exc()[-3000:])
 
 
 def run(ck):
@@ -48,9 +61,11 @@ def run(ck):
 
 
 def replay(ck, path):
-    from harness.props import c17_e2e
+    from harness.props import c17_e2e, c17_procs
     import json
     d = json.load(open(path))
+    if c17_procs.is_procs_case(d):
+        return c17_procs.replay_procs(ck, d)
     if c17_e2e.is_e2e_case(d.get("case", d)):
         return c17_e2e.replay_e2e(ck, d)
     return X.replay_exec(ck, 17, path)
